@@ -16,6 +16,7 @@ import (
 	"math/rand"
 	"strconv"
 	"strings"
+	"sync"
 	"time"
 
 	"github.com/scrapli/scrapligo/driver/netconf"
@@ -109,6 +110,45 @@ type Desc struct {
 	Seg       devsim.Seg `json:"seg"`
 	ReadDelay int        `json:"read_delay_us"`
 	Hello     string     `json:"hello"`
+	// PreProbe: capability strings looked up with ServerHasCapability on the driver object after
+	// NewDriver and before Open (nil = no such history); PreList: ServerCapabilities() is called too.
+	PreProbe []string `json:"pre_probe,omitempty"`
+	PreList  bool     `json:"pre_list,omitempty"`
+	// WriteFault: the WriteFault-th transport write (1-based) fails once with a transient error and
+	// nothing of it reaches the server; every other write works (0 = no fault).
+	WriteFault int `json:"write_fault,omitempty"`
+}
+
+// faultyConn is the transport handed to the library: devsim.Conn plus a one-shot write fault
+// (devsim's WriteErrN is permanent).
+type faultyConn struct {
+	*devsim.Conn
+	mu     sync.Mutex
+	failAt int
+	writes int
+	fired  int
+}
+
+var errTransient = errors.New("c09: write: resource temporarily unavailable (injected once)")
+
+func (f *faultyConn) Write(b []byte) error {
+	f.mu.Lock()
+	f.writes++
+	hit := f.failAt > 0 && f.writes == f.failAt
+	if hit {
+		f.fired++
+	}
+	f.mu.Unlock()
+	if hit {
+		return errTransient
+	}
+	return f.Conn.Write(b)
+}
+
+func (f *faultyConn) firedN() int {
+	f.mu.Lock()
+	defer f.mu.Unlock()
+	return f.fired
 }
 
 var trapCaps = []string{
@@ -447,7 +487,77 @@ func gen(tier string, seed int64) []mon.Case {
 			}
 		}
 	}
+	// --- histories on the driver object before Open (own PRNG: the cases above stay as they were)
+	perProbe, perFault := 30, 4
+	if tier == "thorough" {
+		perProbe, perFault = 500, 80
+	}
+	r2 := rand.New(rand.NewSource(seed*7919 + 909))
+	for k := 0; k < perProbe; k++ {
+		for ci, c := range cells {
+			d := GenDesc(r2, c, k%2 == 1, -1)
+			d.PreProbe, d.PreList = genProbe(r2, &d, k+ci)
+			add(d)
+		}
+	}
+	for k := 0; k < 2*perNoHello; k++ {
+		for _, p := range []string{"", "1.0", "1.1"} {
+			d := genNoHello(r2, noHelloKinds[(k+len(p))%len(noHelloKinds)], p, k%2 == 1)
+			d.PreProbe, d.PreList = genProbe(r2, &d, k)
+			add(d)
+		}
+	}
+	// --- one-shot write fault at every write index of the open sequence (1 = hello, 2 = its return)
+	// and at the first write after it (3), for every cell that must succeed x echo
+	for k := 0; k < perFault; k++ {
+		for _, c := range cells {
+			if table[c] == fail {
+				continue
+			}
+			for _, at := range []int{1, 2, 3} {
+				for _, echo := range []bool{false, true} {
+					d := GenDesc(r2, c, echo, -1)
+					d.WriteFault = at
+					if r2.Intn(4) == 0 {
+						d.PreProbe, d.PreList = genProbe(r2, &d, k)
+					}
+					add(d)
+				}
+			}
+		}
+	}
 	return cs
+}
+
+// genProbe picks the lookups made before Open: both base URNs in every combination (rotating with
+// k), plus capabilities of the hello, look-alikes and absent ones.
+func genProbe(r *rand.Rand, d *Desc, k int) ([]string, bool) {
+	p := []string{}
+	switch k % 4 {
+	case 0:
+		p = append(p, cap11)
+	case 1:
+		p = append(p, cap10)
+	case 2:
+		p = append(p, cap11, cap10)
+	}
+	for n := r.Intn(4); n > 0; n-- {
+		switch r.Intn(3) {
+		case 0:
+			if len(d.Caps) > 0 {
+				p = append(p, d.Caps[r.Intn(len(d.Caps))])
+			}
+		case 1:
+			p = append(p, trapCaps[r.Intn(len(trapCaps))])
+		default:
+			p = append(p, "urn:example:absent:"+randName(r, 4))
+		}
+	}
+	r.Shuffle(len(p), func(i, j int) { p[i], p[j] = p[j], p[i] })
+	if r.Intn(3) == 0 && len(p) > 0 { // the same lookup twice
+		p = append(p, p[r.Intn(len(p))])
+	}
+	return p, r.Intn(2) == 0 || len(p) == 0
 }
 
 // ---------------------------------------------------------------------------------------------
@@ -612,9 +722,10 @@ func RunDesc(d Desc) mon.Result {
 	}
 	conn := devsim.NewConn(srv, devsim.Config{Seg: d.Seg, KeepData: true})
 	defer conn.Abandon()
+	fc := &faultyConn{Conn: conn, failAt: d.WriteFault}
 
 	opts := []util.Option{
-		options.WithCustomTransport(conn),
+		options.WithCustomTransport(fc),
 		options.WithTimeoutOps(openTimeout),
 		options.WithReadDelay(time.Duration(d.ReadDelay) * time.Microsecond),
 	}
@@ -650,8 +761,46 @@ func RunDesc(d Desc) mon.Result {
 	}
 	inconclusive := ""
 
+	// history before Open: lookups on the driver that is not open yet. The only sound answers are
+	// "no capability, no session, no version"; they must not change anything that follows.
+	probed := map[string]bool{}
+	if d.PreProbe != nil || d.PreList {
+		obs["probe_sessions"] = 1
+		tags = append(tags, "pre-open-probe")
+		for _, x := range d.PreProbe {
+			probed[x] = true
+			obs["pre_open_lookups"]++
+			if drv.ServerHasCapability(x) {
+				bad(1, "c09/pre-open-probe:has-capability", "ServerHasCapability(%q) is true before Open", x)
+			}
+			switch x {
+			case cap10:
+				tags = append(tags, "pre-open-probe:base:1.0")
+			case cap11:
+				tags = append(tags, "pre-open-probe:base:1.1")
+			}
+		}
+		if d.PreList {
+			obs["pre_open_lookups"]++
+			if l := drv.ServerCapabilities(); len(l) != 0 {
+				bad(1, "c09/pre-open-probe:capabilities", "ServerCapabilities() = %q before Open", l)
+			}
+			if drv.SessionID() != 0 || drv.SelectedVersion != "" {
+				bad(1, "c09/pre-open-probe:session", "SessionID() = %d, SelectedVersion = %q before Open", drv.SessionID(), drv.SelectedVersion)
+			}
+		}
+	}
+	if d.WriteFault > 0 {
+		obs["write_fault_sessions"] = 1
+		tags = append(tags, fmt.Sprintf("write-fault-at=%d", d.WriteFault))
+	}
+
 	t0 := time.Now()
 	err = drv.Open()
+	faultInOpen := fc.firedN() > 0
+	if faultInOpen {
+		obs["write_faults_fired_during_open"] = 1
+	}
 
 	// landmarks of the hello's delivery
 	helloReads, insideEOM := 0, false
@@ -713,6 +862,10 @@ func RunDesc(d Desc) mon.Result {
 		}
 	case err != nil:
 		switch {
+		case faultInOpen && !timedOut(err):
+			// a write of the open sequence failed: failing is fine (succeeding is too, if exactly one
+			// hello went out - judged below like every successful open)
+			obs["open_failed_on_write_fault"] = 1
 		case timedOut(err):
 			judgeTimeout("open", err, len(hello))
 		case strings.Contains(strings.ToLower(err.Error()), "sessionid"):
@@ -726,6 +879,9 @@ func RunDesc(d Desc) mon.Result {
 	default:
 		opened = true
 		obs["opened"] = 1
+		if faultInOpen {
+			obs["open_survived_write_fault"] = 1
+		}
 	}
 
 	if opened {
@@ -771,6 +927,36 @@ func RunDesc(d Desc) mon.Result {
 			bad(1, k, "SessionID() = %d, hello says %q (position %s)", sid, d.SessionID, d.SidPos)
 		} else if d.SessionID != "" {
 			obs["session_ids_compared"] = 1
+		}
+		// lookups after Open: every capability of the hello, both base URNs, everything looked up
+		// before Open, look-alikes and absent ones; twice (second pass in reverse order): the answer
+		// is membership in the server's list, every time.
+		{
+			inHello := map[string]bool{}
+			for _, x := range refCaps {
+				inHello[x] = true
+			}
+			look := append([]string{cap10, cap11, "urn:example:absent:zz", trapCaps[int(uint32(d.Seg.Seed))%len(trapCaps)]}, refCaps...)
+			look = append(look, d.PreProbe...)
+			for pass := 0; pass < 2 && len(cs) == 0; pass++ {
+				for i := range look {
+					x := look[i]
+					if pass == 1 {
+						x = look[len(look)-1-i]
+					}
+					obs["post_open_lookups"]++
+					if g := drv.ServerHasCapability(x); g != inHello[x] {
+						k := "c09/has-capability-mismatch:never-looked-up-before-open"
+						if probed[x] {
+							k = "c09/has-capability-mismatch:looked-up-before-open"
+						} else if pass == 1 {
+							k = "c09/has-capability-mismatch:repeated-lookup"
+						}
+						bad(1, k, "ServerHasCapability(%q) = %v after Open (pass %d), the server's hello says %v", x, g, pass+1, inHello[x])
+						break
+					}
+				}
+			}
 		}
 
 		// (2) what the server received so far: exactly one message, a hello in end-of-message framing
@@ -825,6 +1011,11 @@ func RunDesc(d Desc) mon.Result {
 				conn.Do(func() { needed = conn.Generated() })
 				if protoErr != "" {
 					bad(1, "c09/rpc-framing:"+want+":strict-decoder-rejects", "rpc %d: the server's strict %s decoder rejected the client's bytes: %s", k, wantFraming, protoErr)
+					break
+				}
+				if rerr != nil && !faultInOpen && fc.firedN() > 0 && errors.Is(rerr, errTransient) {
+					// the injected write error hit this rpc, not the open sequence: nothing more to judge
+					obs["rpc_failed_on_write_fault"] = 1
 					break
 				}
 				if rerr != nil {
@@ -938,7 +1129,8 @@ func init() {
 		Rule: "The 12 cells (advertised subset of {base:1.0, base:1.1} x preferred in {none, 1.0, 1.1}) are enumerated exhaustively in both tiers (plus 8 kinds of well-framed " +
 			"first message without hello element x 3 preferences); per cell PRNG-generated hellos (XML declaration or none, one-line / multi-line / indented, nc: prefix on every element or none, " +
 			"0-40 extra capabilities incl. URNs that merely contain a base URN, shuffled order, duplicates, session-id 1..2^32-1 before/after the capabilities or absent, every 5th case a zero-padded lexical form (01, 010, 08, 0000000019, 00004294967295, ...), LF around the delimiter) " +
-			"x echo on/off x read segmentation x read delay. Non-trivial = prefixed element names, or the server's first message delivered in >= 2 transport reads, or a cell that must fail. " +
+			"x echo on/off x read segmentation x read delay. Extra sessions: ServerHasCapability/ServerCapabilities/SessionID lookups on the driver before Open (both base URNs in every combination, " +
+			"capabilities of the hello, look-alikes, absent ones) and repeated lookups after Open judged against the hello sent; a one-shot transport write error at write 1, 2 (the open sequence) and 3 for every succeeding cell x echo. Non-trivial = prefixed element names, or the server's first message delivered in >= 2 transport reads, or a cell that must fail. " +
 			"Distinct = distinct descriptor hash.",
 		Assumptions: []string{
 			"the server's first message is complete, framed with the end-of-message delimiter, LF-only (no CR), and arrives without transport faults (stalls/EOF are C05/C06)",
@@ -946,6 +1138,8 @@ func init() {
 			"no transport read crosses the end of a server message (message marks); the server answers every rpc completely",
 			"session-id lexical forms judged: decimal digit strings with or without leading zeros (legal xs:unsignedInt / YANG uint32 forms; value = decimal reading, strconv.ParseUint(text, 10, 64) of the text encoding/xml reads); a sign (+5), hex, and white space inside the element are outside the judged set (the library's digit-only pattern does not recognise them and reports 0)",
 			"expected outcome = the 12-cell table written from the property statement, applied to the capability list that encoding/xml reads from the bytes the server sent (exact URI equality)",
+			"before Open the only sound answers are: no capability, empty list, session-id 0, no version; re-opening a driver object after a failed Open or a Close is not exercised (the pinned channel cannot be opened twice: close-once, read-loop-exited flag and exited channel are never reset)",
+			"write faults: exactly one transport write fails (nothing of it reaches the server), all others work; Open may then fail with any error (transport must be closed) or succeed - if it succeeds every clause of a successful open is judged, in particular exactly one client hello and nothing but returns before the first rpc",
 			"trusted base: ncwire strict codec, ncsim server model, encoding/xml, the table (12 lines)",
 			"timeouts 10 s (open) / 6 s (rpc); a timeout is judged only if every needed byte had been delivered and the load canary is quiet, else inconclusive",
 		},
